@@ -1,12 +1,14 @@
 #!/bin/sh
 # Runs every claimed check (tier $1, default quick) on /repo's current tree and summarises.
 TIER="${1:-quick}"
-cd /verif
+V="$(cd "$(dirname "$0")" && pwd)"
+cd "$V"
+mkdir -p "$V/.work"
 git -C /repo diff --quiet || { echo "/repo has uncommitted changes"; exit 2; }
 for p in C01 C02 C03 C04 C05 C06 C07 C08 C09 C10 C11 C12 C13 C14 C15 C16 C17 C18 C19 C20; do
   s=$(date +%s)
-  ./check $p $TIER > /verif/.work/run_$p.log 2>&1
+  ./check $p $TIER > $V/.work/run_$p.log 2>&1
   rc=$?
   e=$(date +%s)
-  echo "$p exit=$rc wall=$((e-s))s $(grep -c '^VIOLATION' /verif/.work/run_$p.log) violations, $(grep -c '^KNOWN-FINDING' /verif/.work/run_$p.log) known, $(grep -c 'INCONCLUSIVE\|unsupported x' /verif/.work/run_$p.log) inconclusive-lines; $(grep '^property' /verif/.work/run_$p.log | cut -c1-150)"
+  echo "$p exit=$rc wall=$((e-s))s $(grep -c '^VIOLATION' $V/.work/run_$p.log) violations, $(grep -c '^KNOWN-FINDING' $V/.work/run_$p.log) known, $(grep -c 'INCONCLUSIVE\|unsupported x' $V/.work/run_$p.log) inconclusive-lines; $(grep '^property' $V/.work/run_$p.log | cut -c1-150)"
 done
